@@ -156,6 +156,28 @@ def run(ctx: Ctx):
 
     # ---- R17.b grammar ---------------------------------------------------------------------------
     ctx.rule("R17.b", "grammar: white space is ignored; a comment is one terminal from # to the end of the line (may be empty, cannot span lines); comment lines and blank lines are accepted inside a component-tagged block without ending it", floor=5)
+    # what is ignored covers the white space characters of lark's common.WS (blank, tab, form feed, CR, LF): a layout
+    # character that stops being ignored makes a file that only differs in layout fail to load
+    ign_chars = set()
+    for tname in G.ignore:
+        t_ = G.terms.get(tname)
+        if t_ is None:
+            continue
+        for tok in t_["tree"].scan_values(lambda v_: isinstance(v_, G.Token) and v_.type in ("REGEXP", "STRING")):
+            txt_ = str(tok)
+            for ch in " \t\f\r\n":
+                try:
+                    if tok.type == "STRING":
+                        hit = ast.literal_eval(txt_) == ch
+                    else:
+                        body_, _, flags_ = txt_[1:].rpartition("/")
+                        hit = re.fullmatch(body_, ch) is not None
+                except Exception:
+                    hit = False
+                if hit:
+                    ign_chars.add(ch)
+    missing_ws = [repr(c) for c in " \t\f\r\n" if c not in ign_chars]
+    ctx.check(not missing_ws, "R17.b", "src/gotranx/ode.lark::%ignore::characters", "blank, tab, form feed, CR and LF are ignored", f"the ignored terminals {G.ignore} no longer match {', '.join(missing_ws)}: a model text that contains that layout character between tokens (a page break between blocks, say) is rejected although only its layout differs", "src/gotranx/ode.lark")
     ctx.check("WS" in G.ignore, "R17.b", "src/gotranx/ode.lark::%ignore WS", "%ignore WS", "ode.lark no longer ignores white space (indentation, blank lines, line continuation would become significant)", "src/gotranx/ode.lark")
     # the comment rule is found by what it matches (a terminal that starts with `#`), not by its name
     cname = comment_rule_name(ctx, G)
@@ -225,6 +247,11 @@ def run(ctx: Ctx):
     from .c08 import check_all_items_registered
 
     check_all_items_registered(ctx, "R17.b")
+    # equality of assignments ignores the expression but includes the trailing comment and unit: a handler that merges
+    # entries that compare equal makes the *comment* decide whether a second definition is dropped silently or rejected
+    from .c08 import check_handlers_keep_every_entry
+
+    check_handlers_keep_every_entry(ctx, "R17.b")
 
     ctx.rule("R17.c", "unit, unit_str, description and comment attributes are never read by the code generators, templates, schemes or expression builder", floor=10)
     for short in NUMERIC_MODULES:
